@@ -4,6 +4,7 @@ import (
 	"fmt"
 	"go/types"
 	"os"
+	"regexp"
 	"sort"
 	"strings"
 	"time"
@@ -145,8 +146,19 @@ func (u *Unit) QueryVariant(o *Obligation, variant int) string {
 	for _, a := range u.axiomTerms() {
 		b.WriteString("(assert " + a + ")\n")
 	}
+	var anc map[string]bool
+	if variant == 4 {
+		anc = u.guardAncestors(o)
+	}
 	for i, f := range u.Facts[:o.NFacts] {
-		if variant > 0 && o.KeepTag != "" {
+		if variant == 4 {
+			// path-local variant: a hypothesis that is guarded by a path condition which is not on the way to
+			// this obligation (a sibling branch) is dropped
+			if g := leadingGuard(f); g != "" && !anc[g] {
+				continue
+			}
+		}
+		if variant > 0 && variant < 4 && o.KeepTag != "" {
 			if tag, ok := u.factTags[i]; ok && strings.Contains(f, "(forall ") {
 				loopPart := o.KeepTag[:strings.Index(o.KeepTag, "#")] // "inv:L2"
 				same := tag == o.KeepTag
@@ -347,4 +359,51 @@ func (u *Unit) FreshHeap(name, sort string) Term {
 	t := u.D.Fresh(name, sort)
 	u.heapWF(t, sort)
 	return t
+}
+
+var guardTok = regexp.MustCompile(`g_[A-Za-z0-9_]+![0-9]+`)
+
+// leadingGuard: for a fact of the form (=> g_x!n ...), the guard symbol.
+func leadingGuard(f Term) string {
+	if !strings.HasPrefix(f, "(=> g_") {
+		return ""
+	}
+	rest := f[4:]
+	if i := strings.IndexAny(rest, " )"); i > 0 {
+		return rest[:i]
+	}
+	return ""
+}
+
+// guardAncestors: the path-condition symbols the obligation's guard is built from (transitively through
+// the definitions (= g (and ...)) / (= g (or ...)) emitted at edges and joins).
+func (u *Unit) guardAncestors(o *Obligation) map[string]bool {
+	defs := map[string][]string{}
+	for _, f := range u.Facts[:o.NFacts] {
+		if !strings.HasPrefix(f, "(= g_") {
+			continue
+		}
+		toks := guardTok.FindAllString(f, -1)
+		if len(toks) > 0 {
+			defs[toks[0]] = append(defs[toks[0]], toks[1:]...)
+		}
+	}
+	anc := map[string]bool{}
+	var visit func(g string)
+	visit = func(g string) {
+		if anc[g] {
+			return
+		}
+		anc[g] = true
+		for _, p := range defs[g] {
+			visit(p)
+		}
+	}
+	for _, g := range guardTok.FindAllString(o.Guard, -1) {
+		visit(g)
+	}
+	for _, g := range guardTok.FindAllString(o.Goal, -1) {
+		visit(g)
+	}
+	return anc
 }
